@@ -297,9 +297,8 @@ def evaluate(h, cases, rng=None):
     return res, mm
 
 
-def shrink(W, focus, still):
+def shrink(W, focus, still, budget=25):
     cur = copy.deepcopy(W)
-    budget = 60
     changed = True
     while changed and budget > 0:
         changed = False
@@ -353,7 +352,7 @@ def run_cases(run, h, cases, rng=None):
             except Exception:
                 return False
             return any(a == strict_code and (b == 0) == known for _, a, b in m2)
-        small = shrink(W, focus, still)
+        small = shrink(W, focus, still, budget=(25 if len(run.violations) + len(run.known_hits) == 0 else 0))
         r2, _ = evaluate(h, [(cid, small, focus)])
         run.report(FID if known else None, 'ingress-%d-%d' % (cid, strict_code),
                    {'kind': 'ingress-correspondence', 'focus': focus, 'code': strict_code, 'impl_rule_code': impl_code,
